@@ -1,1 +1,2 @@
+pub mod c04;
 pub mod libprops;
